@@ -49,9 +49,10 @@ func compoundAssignFunction(d *dataTreeNavigator, context Context, expressionNod
 		prefs = typedPref
 	case multiplyPreferences:
 		prefs.ClobberCustomTags = typedPref.AssignPrefs.ClobberCustomTags
-		// as a plain `=` does: the target keeps its anchor (aliases elsewhere refer to it)
-		prefs.DontOverWriteAnchor = true
 	}
+	// as a plain `=` does: the target keeps its anchor (aliases elsewhere refer to it), whatever the calculation
+	// returns - `.a += 1` on `a: &x ~` yields a fresh node without one
+	prefs.DontOverWriteAnchor = true
 
 	assignmentOp := &Operation{OperationType: assignOpType, Preferences: prefs}
 
